@@ -184,8 +184,12 @@ def encode_uclchem(lr, numstyle="r"):
     r = list(lr["r"])
     if lr["code"]:
         if len(r) > 2:
-            raise ValueError("keyword occupies the second reactant cell")
-        r = [r[0], lr["code"]] + r[1:]
+            raise ValueError("the keyword occupies a reactant cell")
+        if len(r) == 2 and lr["code"] in ("DIFF", "CHEMDES"):
+            # two-body surface processes carry their keyword in the third reactant cell (#H,#CO,DIFF,#HCO,...)
+            r = [r[0], r[1], lr["code"]]
+        else:
+            r = [r[0], lr["code"]] + r[1:]
     p = list(lr["p"])
     if len(r) > 3 or len(p) > 4:
         raise ValueError("too many species")
